@@ -503,7 +503,7 @@ fn on_small_stack<T: Send>(ctx: &Ctx, f: impl FnOnce() -> T + Send) -> T {
 }
 
 pub fn c04_faulted(ctx: &Ctx, out: &mut RunOut) -> Result<(), Violation> {
-    for k in ["fault-truncate", "fault-bit-flip", "fault-byte-burst", "fault-zero-block", "fault-stale-block", "fault-misdirected-block", "fault-duplicated-block", "fault-splice", "fault-digit-edit", "fault-ref-retarget", "fault-cipher-pad-edit", "fault-number-extreme", "fault-deferred-length-edit", "fault-encryption-key-name-damaged", "fault-encrypted-string-cut-short", "page-tree-walk-with-hostile-count", "base-with-deferred-length-in-the-clear", "deferred-length-changed-in-place", "deferred-length-extreme-only-fault", "entry-load-mem", "entry-load-from-faulty-source", "entry-incremental-load", "base-deep-nesting", "base-encrypted", "faulted-image-loaded-ok", "faulted-image-rejected"] {
+    for k in ["fault-truncate", "fault-bit-flip", "fault-byte-burst", "fault-zero-block", "fault-stale-block", "fault-misdirected-block", "fault-duplicated-block", "fault-splice", "fault-digit-edit", "fault-ref-retarget", "fault-cipher-pad-edit", "fault-number-extreme", "fault-deferred-length-edit", "fault-encryption-key-name-damaged", "fault-encrypted-string-cut-short", "fault-structural-number-extreme", "page-tree-walk-with-hostile-count", "base-with-deferred-length-in-the-clear", "deferred-length-changed-in-place", "deferred-length-extreme-only-fault", "entry-load-mem", "entry-load-from-faulty-source", "entry-incremental-load", "base-deep-nesting", "base-encrypted", "faulted-image-loaded-ok", "faulted-image-rejected"] {
         ctx.count_n(k, 0); // registered so that a probe that never fires shows up as zero in the evidence
     }
     LENGTH_OBJECT_SPANS.with(|c| c.borrow_mut().clear());
@@ -538,6 +538,31 @@ pub fn c04_faulted(ctx: &Ctx, out: &mut RunOut) -> Result<(), Violation> {
                 img[digits_at..b].copy_from_slice(&d);
                 ctx.count("fault-deferred-length-edit");
                 kinds.push("deferred-length-edit");
+            }
+        }
+        // every kind of file: an eighth of the variants is one number of a structural field (a length, an
+        // offset, a count, a width, a predictor parameter, an object number) replaced by an extreme of the
+        // integer types a reader may compute with; numbers in the last section of a file do not move anything
+        // that is addressed by offset, so the rest of the file stays readable
+        if kinds.is_empty() && !hot.is_empty() && ctx.chance(F, 1, 8, "structural-extreme") {
+            let (a, b) = hot[ctx.draw(F, hot.len() as u64, "extreme-span") as usize];
+            let from = a + ctx.draw(F, (b.max(a + 1) - a) as u64, "extreme-from") as usize;
+            if let Some(q) = (from..img.len().min(from + 48)).find(|&i| img[i].is_ascii_digit()) {
+                let e = (q..img.len()).find(|&i| !img[i].is_ascii_digit()).unwrap_or(img.len());
+                const EXTREMES: [&str; 14] = [
+                    "32768", "65536", "2147483647", "2147483648", "4294967295", "4294967296", "9007199254740993", "4611686018427387904",
+                    "9223372036854775807", "9223372036854775808", "18446744073709551615", "18446744073709551616", "99999999999999999999999999", "0",
+                ];
+                let v = EXTREMES[ctx.draw(F, EXTREMES.len() as u64, "extreme-value") as usize].as_bytes();
+                if v.len() <= e - q && ctx.chance(F, 1, 2, "extreme-in-place") {
+                    let mut d = vec![b'0'; e - q - v.len()];
+                    d.extend_from_slice(v);
+                    img[q..e].copy_from_slice(&d);
+                } else {
+                    img.splice(q..e, v.iter().cloned());
+                }
+                ctx.count("fault-structural-number-extreme");
+                kinds.push("structural-extreme");
             }
         }
         // encrypted files: a sixth of the variants cuts one string short without moving anything: the tail
